@@ -854,6 +854,27 @@ pub fn to_pem(der_bytes: &[u8]) -> String {
 pub fn pem_bundle(ders: &[Vec<u8>]) -> String {
     ders.iter().map(|d| to_pem(d)).collect()
 }
+/// All `-----BEGIN x----- … -----END x-----` blocks of `text`, decoded (label ignored).
+pub fn pem_to_ders(text: &str) -> Vec<Vec<u8>> {
+    use base64::Engine;
+    let mut out = Vec::new();
+    let mut cur: Option<String> = None;
+    for line in text.lines() {
+        let l = line.trim();
+        if l.starts_with("-----BEGIN") {
+            cur = Some(String::new());
+        } else if l.starts_with("-----END") {
+            if let Some(b) = cur.take() {
+                if let Ok(d) = base64::engine::general_purpose::STANDARD.decode(b) {
+                    out.push(d);
+                }
+            }
+        } else if let Some(b) = cur.as_mut() {
+            b.push_str(l);
+        }
+    }
+    out
+}
 
 // ------------------------------------------------------------------------------------------------
 // OpenSSL command line (independent oracle)
